@@ -28,7 +28,7 @@ ASSUMPTIONS = [
 REQUIRED_COUNTERS = ["controllers_compared", "options_compared", "types_compared", "hostile_loads"]
 
 
-def plan(tier, seed):
+def _plan_core(tier, seed):
     return [{"tier": tier}]
 
 
@@ -240,6 +240,11 @@ def hostile_workload(res, tier):
 
 
 def run_shard(spec_, res):
+    if spec_.get("part") == "soak":
+        from .. import soak
+        for s_ in spec_["soak_seeds"]:
+            soak.run(res, s_, spec_["tier"], PROPERTY, SOAK_KINDS, spec_["steps"])
+        return
     compare_all(res)
     before = res.evaluations
     hostile_workload(res, spec_["tier"])
@@ -255,3 +260,16 @@ def run_shard(spec_, res):
 
 def replay(case, res):
     compare_all(res)
+
+
+# ------------------------------------------------------------------ soak slice (rvmon.soak): long mixed histories on a pool of objects
+SOAK_KINDS = ['metadata']
+
+
+def plan(tier, seed):
+    specs = _plan_core(tier, seed)
+    k = 2 if tier == "quick" else 8
+    for i in range(k):
+        specs.append({"tier": tier, "part": "soak", "soak_seeds": [seed * 100003 + 1000 * i + j for j in range(8 if tier == "quick" else 40)],
+                      "steps": 150 if tier == "quick" else 300, "seed": seed, "shard": 1000 + i})
+    return specs
